@@ -60,6 +60,10 @@ func c05VaryOpts(r *rand.Rand, base eOpts, n int, cmds []database.Command) eOpts
 		} else {
 			o.Boosts = []eBoost{{Word: ints(eWord(r)), F: "2"}, {Word: ints(eWord(r)), F: "1.5"}}
 		}
+	case 11: // unset values beside the defaults they might be folded onto
+		o.Limit = []int{0, 5, 10, -1}[r.Intn(4)]
+	case 12:
+		o.TermsCap = []int{0, 10, -1, 8}[r.Intn(4)]
 	}
 	return o
 }
